@@ -98,6 +98,13 @@ def gen_c16(r):
         if r.random() < 0.4:
             a, b = b, a
         return ["rl_ufunc", f, a, b], {"how": r.choice(["ufunc", "operator"]), "via": r.choice(RLV), "share": r.random() < 0.5}, True
+    if k == "reduce" and r.random() < 0.25:
+        from .enc import limbs
+        wdt = r.choice(["u8", "u8", "i8"])
+        base = r.choice([2 ** 53, 2 ** 60, 2 ** 63 - 50, 3]) if wdt == "i8" else r.choice([2 ** 53, 2 ** 63, 2 ** 64 - 50, 2 ** 62, 3])
+        pat = rnd_runs(r, "i1", n, small=True)
+        sign = -1 if wdt == "i8" and r.random() < 0.3 else 1
+        return ["rl_wsum", wdt, [limbs(sign * (base + abs(v))) for v in pat]], {"how": r.choice(["np", "method"]), "via": r.choice(RLV)}, False
     if k == "reduce":
         name = r.choice(["sum", "any", "all", "max", "mean"])
         return ["rl_reduce", name, dt, rnd_runs(r, dt, n, nan_ok=False, small=True)], {"how": r.choice(["np", "method"]), "via": r.choice(RLV)}, False
